@@ -24,8 +24,6 @@ Definition buf_empty : buf := mkBuf None 0 [] 0 None.
 Definition buf_unread (b : buf) : list Z := skipn (b_off b) (b_data b).
 Definition buf_tagged (b : buf) : option (list Z) := option_map (fun t => skipn t (b_data b)) (b_tag b).
 
-Definition failM {A} (k : ub_kind) : M A := fun _ => UB k.
-Definition errM {A} (s : Z) : M A := fun _ => Err s.
 
 (* ares_buf_reclaim *)
 Definition buf_reclaim (b : buf) : outcome buf :=
